@@ -107,4 +107,7 @@ class Timer:
         self.start()
 
     def _unset_task(self, task: asyncio.Future):
-        self._task = None
+        # Only unset the task in case it is still the current one, the timer
+        # could have been restarted before the callback of the old task ran
+        if self._task is task:
+            self._task = None
